@@ -476,12 +476,10 @@ function generateChildVariableMap(
     if (value.kind === 'Object') {
       childVars[name] = generateChildVariableMap(variables, value.value);
     } else if (value.kind === 'Variable') {
-      const variable = variables[value.name];
-      // Variable could be null if it was not provided but has a default case,
-      // so we allow the loop to continue rather than throwing an error.
-      if (variable != null) {
-        childVars[name] = variable;
-      }
+      // A variable that was not provided is passed down as null, which is what
+      // the compiler writes for it in the merged selection set. (Inside an object
+      // argument, a missing key and a null value give different store keys.)
+      childVars[name] = variables[value.name] ?? null;
     } else {
       childVars[name] = value.value;
     }
